@@ -378,6 +378,10 @@ CHECKS["C07"] = {
          "gen_stubs": [{"pkgpath": "github.com/ProtonMail/gluon/connector", "iface": "Connector", "type": "verifConnBase"}],
          "params": {"quick": grid(faults=[0, 1]), "thorough": grid(faults=[0, 1, 2])},
          "cover": ["op-ok", "crash-point"]},
+        {"name": "cmdcrash", "pkg": "internal/backend", "pkgname": "backend", "entry": "VerifC07Commands", "files": ["zz_verif_backend.go", "zz_verif_c07b.go"], "with": BACKEND_WITH,
+         "gen_stubs": [{"pkgpath": "github.com/ProtonMail/gluon/connector", "iface": "Connector", "type": "verifConnBase"}],
+         "params": {"quick": grid(faults=[0, 1]), "thorough": grid(faults=[0, 1, 2])},
+         "cover": ["command-ok", "crash-point"]},
         {"name": "getliteral", "pkg": "internal/state", "pkgname": "state", "entry": "VerifC07GetLiteral",
          "files": ["zz_verif_c20.go", "zz_verif_c17.go"] + STATE_FILES, "with": ["verifdb"], "gen_stubs": [TX_STUB],
          "params": {"quick": [{}], "thorough": [{}]}, "cover": ["literal-served", "literal-failed"]},
